@@ -1958,7 +1958,8 @@ getattr_event(trait_object *trait, has_traits_object *obj, PyObject *name)
 +----------------------------------------------------------------------------*/
 
 static PyObject *
-getattr_trait(trait_object *trait, has_traits_object *obj, PyObject *name)
+materialize_default(
+    trait_object *trait, has_traits_object *obj, PyObject *name, int notify)
 {
     int rc;
     PyListObject *tnotifiers;
@@ -2003,7 +2004,7 @@ getattr_trait(trait_object *trait, has_traits_object *obj, PyObject *name)
     /* Call notifiers. */
     tnotifiers = trait->notifiers;
     onotifiers = obj->notifiers;
-    if (has_notifiers(tnotifiers, onotifiers)) {
+    if (notify && has_notifiers(tnotifiers, onotifiers)) {
         rc = call_notifiers(
             tnotifiers, onotifiers, obj, name, Uninitialized, result);
         if (rc < 0) {
@@ -2016,6 +2017,12 @@ getattr_trait(trait_object *trait, has_traits_object *obj, PyObject *name)
   error:
     Py_DECREF(result);
     return NULL;
+}
+
+static PyObject *
+getattr_trait(trait_object *trait, has_traits_object *obj, PyObject *name)
+{
+    return materialize_default(trait, obj, name, 1);
 }
 
 /*-----------------------------------------------------------------------------
@@ -2421,7 +2428,16 @@ setattr_trait(
             tnotifiers = traito->notifiers;
             onotifiers = obj->notifiers;
             if ((tnotifiers != NULL) || (onotifiers != NULL)) {
-                value = traito->getattr(traito, obj, name);
+                if (traito->getattr == getattr_trait) {
+                    /* The notification for this deletion (old -> default)
+                       follows below: do not also announce the default as
+                       (Uninitialized -> default), or observers that track
+                       the value would see it arrive twice. */
+                    value = materialize_default(traito, obj, name, 0);
+                }
+                else {
+                    value = traito->getattr(traito, obj, name);
+                }
                 if (value == NULL) {
                     Py_DECREF(old_value);
                     return -1;
